@@ -144,7 +144,7 @@ def gen_run_module(recs, path):
     for i, r in enumerate(recs):
         rec = ('[op |-> "%s", amt |-> %s, rate |-> %s, now |-> %s, num |-> %d, den |-> %d, funds |-> %s, pre |-> %s, post |-> %s, ok |-> %s, '
                'panic |-> %s, gainReceiver |-> %s, gainFees |-> %s, gainSender |-> %s, gainEscrow |-> %s]') % (
-            r["op"], r["amt"], r["rate"], r["now"], r["feeNum"], max(1, r["feeDen"]), r["funds"], _st(r["pre"]), _st(r["post"]),
+            r["op"], r["amt"], r["rate"], r["now"], int(r["feeNum"]), max(1, int(r["feeDen"])), r["funds"], _st(r["pre"]), _st(r["post"]),
             b(r["res"]["ok"]), b(r["res"]["panic"]), r["gain"]["A2"], r["gain"]["feecol"], r["gain"]["A1"], r["gain"]["stream"])
         out.append("\\* @type: $vec;")
         out.append("V%d == %s" % (i + 1, rec))
